@@ -222,6 +222,7 @@ type RuntimeState struct {
 	webAuthn                     *webauthn.WebAuthn
 	totpLocalRateLimit           map[string]totpRateLimitInfo
 	totpLocalTateLimitMutex      sync.Mutex
+	bootstrapOtpMutex            sync.Mutex
 	logger                       log.DebugLogger
 }
 
